@@ -21,26 +21,33 @@ Section Inv.
       exists s nl, root_of sch s = r /\ In (CUnique f nl) (cons_of sch s) /\
                    nonempty v = true /\ present sch st s x = true /\ fbytes st s x f = v.
 
+  (* the set index (r, f) is owned by a store s of the family of r - r itself or a child store -; a listed id lives in s *)
   Definition SSound (st : state) : Prop :=
-    forall r f v x, In x (sbucket st r f v) -> In (CSetIdx f) (cons_of sch r) /\ In v (eset st r x f).
+    forall r f v x, In x (sbucket st r f v) ->
+      exists s, root_of sch s = r /\ In (CSetIdx f) (cons_of sch s) /\ present sch st s x = true /\ In v (eset st r x f).
 
+  (* referrer store s and target store t may be child stores: the back-reference set lives in the entity of the root store
+     of t, the referenced entity lives in t *)
   Definition BSound (st : state) : Prop :=
-    forall s f t b nl ti x, In (CFkIndex f t b nl) (cons_of sch s) -> In x (eset st t ti b) ->
+    forall s f t b nl ti x, In (CFkIndex f t b nl) (cons_of sch s) -> In x (eset st (root_of sch t) ti b) ->
       nonempty ti = true /\ present sch st s x = true /\ fbytes st s x f = ti.
 
   Definition FSound (G : gset) (st : state) : Prop :=
-    forall s f t b nl y v, In (CFkIndex f t b nl) (cons_of sch s) -> ~ G s y ->
+    forall s f t b nl y v, In (CFkIndex f t b nl) (cons_of sch s) -> ~ G (root_of sch s) y ->
       present sch st s y = true -> get_field sch st s y f = FStr v -> nonempty v = true ->
-      In y (eset st t v b).
+      In y (eset st (root_of sch t) v b) /\ present sch st t v = true.
 
   Definition CSound (G : gset) (st : state) : Prop :=
-    forall s f t nl y v, In (CFkCons f t nl) (cons_of sch s) -> ~ G s y ->
+    forall s f t nl y v, In (CFkCons f t nl) (cons_of sch s) -> ~ G (root_of sch s) y ->
       present sch st s y = true -> get_field sch st s y f = FStr v -> nonempty v = true ->
-      get_ent st t v <> None.
+      present sch st t v = true.
 
+  (* link sets live in the entity of the ROOT store of the declaring store (which may be a child store); a link is
+     symmetric and both ends live in the stores that declare the collection *)
   Definition LSound (G : gset) (st : state) : Prop :=
-    forall s lf os of_ x t, In (lf, os, of_) (links_of sch s) -> ~ G s x ->
-      In t (eset st s x lf) -> In x (eset st os t of_).
+    forall s lf os of_ x t, In (lf, os, of_) (links_of sch s) -> ~ G (root_of sch s) x ->
+      In t (eset st (root_of sch s) x lf) ->
+      In x (eset st (root_of sch os) t of_) /\ present sch st s x = true /\ present sch st os t = true.
 
   Definition DInv (G : gset) (st : state) : Prop :=
     USound st /\ SSound st /\ BSound st /\ FSound G st /\ CSound G st /\ LSound G st.
@@ -102,13 +109,13 @@ Section Inv.
     split; [refine (conj _ (conj _ (conj _ (conj _ (conj _ _)))))|].
     - intros r f v x Hx. destruct (HU r f v x (Hu _ _ _ _ Hx)) as [s [nl [A [B [C [D E]]]]]].
       exists s, nl. unfold fbytes in *. rewrite Hp, Hg. repeat split; assumption.
-    - intros r f v x Hx. rewrite Hsb in Hx. rewrite Hes. apply (HS r f v x Hx).
+    - intros r f v x Hx. rewrite Hsb in Hx. rewrite Hes. destruct (HS r f v x Hx) as [s [A [B [C D]]]]. exists s. rewrite Hp. repeat split; assumption.
     - intros s f t b nl ti x Hin Hx. rewrite Hes in Hx. unfold fbytes. rewrite Hp, Hg. apply (HB s f t b nl ti x Hin Hx).
-    - intros s f t b nl y v Hin Hgn Hpy Hf Hn. rewrite Hes. rewrite Hp in Hpy. rewrite Hg in Hf.
+    - intros s f t b nl y v Hin Hgn Hpy Hf Hn. rewrite Hes. rewrite Hp in Hpy. rewrite Hg in Hf. rewrite Hp.
       apply (HF s f t b nl y v Hin Hgn Hpy Hf Hn).
-    - intros s f t nl y v Hin Hgn Hpy Hf Hn. rewrite (get_ent_ents_eq _ _ _ _ He). rewrite Hp in Hpy. rewrite Hg in Hf.
+    - intros s f t nl y v Hin Hgn Hpy Hf Hn. rewrite Hp in Hpy. rewrite Hg in Hf. rewrite Hp.
       apply (HC s f t nl y v Hin Hgn Hpy Hf Hn).
-    - intros s lf os of_ x t Hin Hgn Ht. rewrite Hes in *. apply (HL s lf os of_ x t Hin Hgn Ht).
+    - intros s lf os of_ x t Hin Hgn Ht. rewrite Hes in *. rewrite !Hp. apply (HL s lf os of_ x t Hin Hgn Ht).
     - refine (conj _ (conj _ (conj _ _))).
       + exact Hu.
       + intros r f v x Hx. rewrite Hsb in Hx. exact Hx.
@@ -128,13 +135,13 @@ Section Inv.
     split; [refine (conj _ (conj _ (conj _ (conj _ (conj _ _)))))|].
     - intros r f v x Hx. rewrite Hu in Hx. destruct (HU r f v x Hx) as [s [nl [A [B [C [D E]]]]]].
       exists s, nl. unfold fbytes in *. rewrite Hp, Hg. repeat split; assumption.
-    - intros r f v x Hx. rewrite Hes. apply (HS r f v x (Hs _ _ _ _ Hx)).
+    - intros r f v x Hx. rewrite Hes. destruct (HS r f v x (Hs _ _ _ _ Hx)) as [s [A [B [C D]]]]. exists s. rewrite Hp. repeat split; assumption.
     - intros s f t b nl ti x Hin Hx. rewrite Hes in Hx. unfold fbytes. rewrite Hp, Hg. apply (HB s f t b nl ti x Hin Hx).
-    - intros s f t b nl y v Hin Hgn Hpy Hf Hn. rewrite Hes. rewrite Hp in Hpy. rewrite Hg in Hf.
+    - intros s f t b nl y v Hin Hgn Hpy Hf Hn. rewrite Hes. rewrite Hp in Hpy. rewrite Hg in Hf. rewrite Hp.
       apply (HF s f t b nl y v Hin Hgn Hpy Hf Hn).
-    - intros s f t nl y v Hin Hgn Hpy Hf Hn. rewrite (get_ent_ents_eq _ _ _ _ He). rewrite Hp in Hpy. rewrite Hg in Hf.
+    - intros s f t nl y v Hin Hgn Hpy Hf Hn. rewrite Hp in Hpy. rewrite Hg in Hf. rewrite Hp.
       apply (HC s f t nl y v Hin Hgn Hpy Hf Hn).
-    - intros s lf os of_ x t Hin Hgn Ht. rewrite Hes in *. apply (HL s lf os of_ x t Hin Hgn Ht).
+    - intros s lf os of_ x t Hin Hgn Ht. rewrite Hes in *. rewrite !Hp. apply (HL s lf os of_ x t Hin Hgn Ht).
     - refine (conj _ (conj _ (conj _ _))).
       + intros r f v x Hx. rewrite Hu in Hx. exact Hx.
       + exact Hs.
@@ -150,34 +157,40 @@ Record wfprops (sch : schema) : Prop := mkWfprops {
   wp_roots : forall x, root_of sch (root_of sch x) = root_of sch x;
   wp_root_nochild : forall x, is_child sch (root_of sch x) = false;
   wp_children : forall r0 d, In d (children_of sch r0) -> root_of sch (sd_name d) = r0;
-  (* child stores carry only unique indexes (on their own fields) and system constraints, and no links *)
-  wp_cons_root : forall s k, In k (cons_of sch s) ->
-      match k with CUnique _ _ => True | CSystem => True | _ => isroot sch s end;
+  wp_children_child : forall r0 d, In d (children_of sch r0) -> is_child sch (sd_name d) = true;
+  (* unique indexes and foreign keys of a child store are on its own fields *)
+  (* one owner per set index (family, string list) *)
+  wp_sown : forall s s' f, root_of sch s = root_of sch s' ->
+      In (CSetIdx f) (cons_of sch s) -> In (CSetIdx f) (cons_of sch s') -> s = s';
   wp_uchild : forall s d f nl, is_child sch s = true -> find_store sch s = Some d ->
       In (CUnique f nl) (cons_of sch s) -> declares_field d f = true;
+  (* foreign-key fields of a child store are its own fields *)
+  wp_fchild : forall s d k f, is_child sch s = true -> find_store sch s = Some d -> In k (cons_of sch s) ->
+      (match k with CFkIndex f' _ _ _ => f' = f | CFkCons f' _ _ => f' = f | _ => False end) -> declares_field d f = true;
   (* one owner per unique index (root, field) *)
   wp_uown : forall s s' f nl nl', root_of sch s = root_of sch s' ->
       In (CUnique f nl) (cons_of sch s) -> In (CUnique f nl') (cons_of sch s') -> s = s';
-  (* foreign keys point to root stores and are guarded on the target *)
-  wp_fk_t : forall s f t b nl, In (CFkIndex f t b nl) (cons_of sch s) -> isroot sch t;
-  wp_fc_t : forall s f t nl, In (CFkCons f t nl) (cons_of sch s) -> isroot sch t;
+  (* foreign keys (of root and child stores) point to root or child stores and are guarded on the target *)
   wp_fk_guard : forall s f t b nl, In (CFkIndex f t b nl) (cons_of sch s) ->
       In (CFkRestrict b) (cons_of sch t) \/ exists c, In (CFkCascade s f c) (cons_of sch t);
   wp_fc_guard : forall s f t nl, In (CFkCons f t nl) (cons_of sch s) -> exists c, In (CFkCascade s f c) (cons_of sch t);
-  wp_buniq : forall s s' f f' t b nl nl', In (CFkIndex f t b nl) (cons_of sch s) -> In (CFkIndex f' t b nl') (cons_of sch s') ->
-      s = s' /\ f = f';
-  (* link collections: between root stores, declared on both sides, one per local field *)
-  wp_link_root : forall s lf os of_, In (lf, os, of_) (links_of sch s) -> isroot sch s /\ isroot sch os;
+  (* one owner per back-reference set (root of the target, name) *)
+  wp_buniq : forall s s' f f' t t' b nl nl', In (CFkIndex f t b nl) (cons_of sch s) -> In (CFkIndex f' t' b nl') (cons_of sch s') ->
+      root_of sch t = root_of sch t' -> s = s' /\ f = f' /\ t = t';
+  (* link collections: of root stores and of child stores, declared on both sides, one per (family, local field) *)
   wp_link_sym : forall s lf os of_, In (lf, os, of_) (links_of sch s) -> In (of_, s, lf) (links_of sch os);
-  wp_link_uniq : forall s lf os of_ os' of', In (lf, os, of_) (links_of sch s) -> In (lf, os', of') (links_of sch s) ->
-      os = os' /\ of_ = of';
+  wp_link_uniq : forall s s' lf os of_ os' of', In (lf, os, of_) (links_of sch s) -> In (lf, os', of') (links_of sch s') ->
+      root_of sch s = root_of sch s' -> s = s' /\ os = os' /\ of_ = of';
   (* the names of the string sets inside an entity are pairwise different *)
-  wp_disj_sb : forall r f0 s f b nl, In (CSetIdx f0) (cons_of sch r) -> In (CFkIndex f r b nl) (cons_of sch s) -> f0 <> b;
-  wp_disj_sl : forall r f0 lf os of_, In (CSetIdx f0) (cons_of sch r) -> In (lf, os, of_) (links_of sch r) -> f0 <> lf;
-  wp_disj_bl : forall r s f b nl lf os of_, In (CFkIndex f r b nl) (cons_of sch s) -> In (lf, os, of_) (links_of sch r) -> b <> lf;
+  wp_disj_sb : forall s0 f0 s f t b nl, In (CSetIdx f0) (cons_of sch s0) -> In (CFkIndex f t b nl) (cons_of sch s) ->
+      root_of sch t = root_of sch s0 -> f0 <> b;
+  wp_disj_sl : forall s0 f0 s lf os of_, In (CSetIdx f0) (cons_of sch s0) -> In (lf, os, of_) (links_of sch s) ->
+      root_of sch s = root_of sch s0 -> f0 <> lf;
+  wp_disj_bl : forall s f t b nl s' lf os of_, In (CFkIndex f t b nl) (cons_of sch s) -> In (lf, os, of_) (links_of sch s') ->
+      root_of sch s' = root_of sch t -> b <> lf;
   (* PersistEntity does not write back-reference sets or link sets *)
-  wp_sets_b : forall r d s f b nl, find_store sch r = Some d -> In (CFkIndex f r b nl) (cons_of sch s) -> ~ In b (sd_sets d);
-  wp_sets_l : forall r d lf os of_, find_store sch r = Some d -> In (lf, os, of_) (sd_links d) -> ~ In lf (sd_sets d);
+  wp_sets_b : forall d s f t b nl, find_store sch (root_of sch t) = Some d -> In (CFkIndex f t b nl) (cons_of sch s) -> ~ In b (sd_sets d);
+  wp_sets_l : forall s d lf os of_, find_store sch (root_of sch s) = Some d -> In (lf, os, of_) (links_of sch s) -> ~ In lf (sd_sets d);
   (* foreign-key fields are ordinary string fields; the parent of a child store is declared *)
   wp_fk_nosys : forall s f t b nl, In (CFkIndex f t b nl) (cons_of sch s) -> f <> isSystemF;
   wp_fc_nosys : forall s f t nl, In (CFkCons f t nl) (cons_of sch s) -> f <> isSystemF;
